@@ -41,6 +41,16 @@ def appendSessionOps {σ} (base : Bytes) (cfg : WConfig σ) (ms : List WMember) 
   let hdr ← writeHeaderRaw true H' (appendPos H + out.length)
   pure (appendOps (appendPos H) (sigHeaderBytes (appendPos H + out.length - 32) hdr.length (crc32 hdr)) (out ++ hdr))
 
+/-- the writes of an append session in the default (encoded) header mode on the image `base` -/
+def appendSessionOpsEncoded {σ} (base : Bytes) (cfg : WConfig σ) (hcfg : HConfig σ) (ms : List WMember) : Option (List WriteOp) := do
+  let H ← headerOfImageIdEnc base
+  let (H', out) ← (if ms.isEmpty then some (H, ([] : Bytes)) else
+    (appendHeader H cfg ms).map (fun h => (h, (sessionCompress cfg ms).1.out)))
+  let pos := appendPos H
+  let (packedHdr, record) ← encodeHeader H' hcfg (pos - 32 + out.length)
+  pure (appendOps pos (sigHeaderBytes (pos + out.length + packedHdr.length - 32) record.length (crc32 record))
+    (out ++ packedHdr ++ record))
+
 /-- the reader's second gate (py7zr.py `_real_get_contents`: `_read_full(nextheadersize)` then the CRC comparison):
     whatever can be read of the header the signature header points at -- `_read_full` stops at end of file without
     complaint -- must carry the stored CRC; `none` = Bad7zFile -/
